@@ -325,8 +325,12 @@ Definition id_eqb (a b : block) : bool := zlist_eqb (b_cat a) (b_cat b) && (b_ti
 Definition entry_of (T : tinfo) (D : dinfo) (b : block) : entry :=
   {| e_cat := b_cat b; e_name := fst (fst (spec_lookup T D (b_cat b) (b_tid b) (b_unit b)));
      e_n := b_nz b * b_ny b * b_nx b |}.
+(* no two time blocks carry the same time stamp: the format identifies a data block by (category, tracer, tau0) *)
+Definition taus_distinct (f : bfile) : bool :=
+  nodupb zlist_eqb (map (fun tb => b_tau (hd_block tb)) (f_times f)).
 (* every time block repeats the tracers of the first one (same metadata), one model grid per file, one
-   time stamp per time block, no tracer twice in a time block, distinct variable names *)
+   time stamp per time block and different stamps on different time blocks, no tracer twice in a time block,
+   distinct variable names *)
 Definition wf (T : tinfo) (D : dinfo) (f : bfile) : bool :=
   wf_shape f
   && match f_times f with
@@ -340,6 +344,7 @@ Definition wf (T : tinfo) (D : dinfo) (f : bfile) : bool :=
          && forallb (fun tb => forallb (fun b => zlist_eqb (b_tau b) (b_tau (hd_block tb))) tb) (f_times f)
          && negb (existsb (id_eqb b0) rest0)
          && nodup_keys (map (entry_of T D) t0)
+         && taus_distinct f
        end
      end.
 
@@ -368,14 +373,14 @@ Definition trunc_times (k : nat) (f : bfile) : bfile :=
 Definition first_tracers (j : nat) (f : bfile) : bfile :=
   {| f_ftype := f_ftype f; f_title := f_title f; f_times := [firstn j (tb0 f)] |}.
 
-(* ---- impl: bpch2 (geoschemfiles/_newbpch.py, as repaired by a06c03f) ------------------------------------ *)
+(* ---- impl: bpch2 (geoschemfiles/_newbpch.py, as repaired by a06c03f and 78b5b3f) ------------------------------------ *)
 (* The block-walking reader: no marker check, no time_type; it walks EVERY data block header
       while offset < size: hdr = data[offset:offset+220].view(dht); key = category + '_' + str(tracerid)
                            outpos.setdefault(key, OrderedDict())[(tau0, tau1)] = offset, offset+220+skip, dim
                            offset += skip + 220
    and presents, per key in order of first appearance, the data of all blocks with that key (a later block with the
-   same (tau0, tau1) replaces the earlier one).  tracerinfo/diaginfo are arrays of rows: FIRST matching row, and a missing
-   row is an IndexError.  Modelled for skips that are non-negative multiples of 4 and blocks whose dims agree with skip
+   same (tau0, tau1) replaces the earlier one).  tracerinfo/diaginfo are arrays of rows: FIRST matching row, bpch1's
+   fallbacks for missing rows.  Modelled for skips that are non-negative multiples of 4 and blocks whose dims agree with skip
    (others: Err; only well-formed files are driven through bpch2). *)
 Definition firstnZ (n : Z) (l : list word) : list word :=
   if lenZ l <=? n then l else firstn (Z.to_nat n) l.
@@ -411,19 +416,11 @@ Fixpoint tau_set (b : blk2) (l : list blk2) : list blk2 :=
 Definition group2 (k : list word * Z) (bs : list blk2) : list blk2 :=
   fold_left (fun l b => tau_set b l) (filter (fun b => key2_eqb (key2 b) k) bs) [].
 
-(* table rows in file order: first match; None = IndexError *)
-Definition lookup2 (T : tinfo) (D : dinfo) (cat : list word) (tid : Z) : option (tname * Q * tunit) :=
-  match find (fun p => zlist_eqb (fst p) cat) D with
-  | None => None
-  | Some p =>
-    match find (fun e => t_ord e =? tid + snd p) T with
-    | Some e => Some (TName (t_name e), t_scale e, UTab (t_unit e))
-    | None => match find (fun e => t_ord e =? tid) T with
-              | Some e => Some (TName (t_name e), t_scale e, UTab (t_unit e))
-              | None => None
-              end
-    end
-  end.
+(* table rows in file order, FIRST match; as repaired by 78b5b3f a missing diaginfo line means offset 0 and a missing
+   tracerinfo line for offset+id means the name of the tracer with that id (else the id), scale 1, the header unit:
+   this is exactly the association `spec_lookup` *)
+Definition lookup2 (T : tinfo) (D : dinfo) (cat : list word) (tid : Z) (unit0 : list word) : tname * Q * tunit :=
+  spec_lookup T D cat tid unit0.
 
 Record view2 := {
   s_ftype : list word; s_title : list word;
@@ -439,9 +436,7 @@ Definition var2 (T : tinfo) (D : dinfo) (g : list blk2) : option (var * list (li
   | [] => None
   | (h0, _) :: _ =>
     let n := hdr_dims_n (fst (last g (h0, []))) in
-    match lookup2 T D (p_cat h0) (p_tid h0) with
-    | None => None
-    | Some l =>
+    let l := lookup2 T D (p_cat h0) (p_tid h0) (p_unit h0) in
       if (0 <? p_nx h0) && (0 <? p_ny h0) && (0 <? p_nz h0) && (0 <? n)
          && forallb (fun b => (lenZ (snd b) =? Z.of_nat dht_words + 2 + n) && (p_skip (fst b) =? 4 * n + 8)
                               && (hdr_dims_n (fst b) =? n)) g
@@ -450,7 +445,6 @@ Definition var2 (T : tinfo) (D : dinfo) (g : list blk2) : option (var * list (li
                     v_scale := snd (fst l); v_unit := snd l |},
                  map (fun b => firstn (Z.to_nat n) (skipn (S dht_words) (snd b))) g)
       else None
-    end
   end.
 Fixpoint all_some {A} (l : list (option A)) : option (list A) :=
   match l with
@@ -493,13 +487,3 @@ Definition readers_agree (v1 : view) (v2 : view2) : Prop :=
   /\ s_vars v2 = map no_resv (r_vars v1)
   /\ s_taus v2 = r_taus v1
   /\ s_data v2 = map (data_of_var v1) (r_vars v1).
-
-(* every tracer of the file has its category in diaginfo.dat and its number offset+id in tracerinfo.dat *)
-Definition tables_complete (T : tinfo) (D : dinfo) (f : bfile) : bool :=
-  forallb (fun b => match find (fun p => zlist_eqb (fst p) (b_cat b)) D with
-                    | Some p => existsb (fun e => t_ord e =? b_tid b + snd p) T
-                    | None => false
-                    end) (tb0 f).
-(* no two time blocks carry the same time stamp *)
-Definition taus_distinct (f : bfile) : bool :=
-  nodupb zlist_eqb (map (fun tb => b_tau (hd_block tb)) (f_times f)).
